@@ -68,6 +68,7 @@ func TestVerifC13MQTTProxy(t *testing.T) {
 	vf := vfBegin(t, "C13")
 	defer vf.End()
 	env := vfGetEnv(t)
+	vfSteerVF = vf
 	defer vfDumpDiscovered(t)
 	specT := reflect.TypeOf((&mqttproxy.MQTTProxy{}).DefaultSpec()).Elem()
 	rapid.Check(t, func(rt *rapid.T) {
@@ -115,10 +116,18 @@ func TestVerifC13MQTTProxy(t *testing.T) {
 		tree["port"] = port
 		// certificate fix-up: TLS needs at least one valid pair most of the time
 		useTLS, _ := tree["useTLS"].(bool)
-		if useTLS && g.chance("certificate", "fix", 70) {
+		pTLS := 70
+		if vf.HasKnown(vfKeyMQTLS) {
+			pTLS = 95
+		}
+		if useTLS && g.chance("certificate", "fix", pTLS) {
 			tree["certificate"] = []interface{}{map[string]interface{}{"name": "c1", "cert": vfCertPEM, "key": vfKeyPEM}}
 		}
-		if rs, ok := tree["rules"].([]interface{}); ok && g.chance("rules", "fix", 80) {
+		pRules := 80
+		if vf.HasKnown(vfKeyMQWhen) && vf.HasKnown(vfKeyMQType) {
+			pRules = 95
+		}
+		if rs, ok := tree["rules"].([]interface{}); ok && g.chance("rules", "fix", pRules) {
 			// distinct known packet types, explicit `when`
 			types := []string{"Connect", "Publish", "Disconnect", "Subscribe", "Unsubscribe"}
 			for i, r := range rs {
